@@ -45,6 +45,16 @@ NOTES = {
  "C15a_2": ("calculate_strain_stress: y4/shear guard tests Re(shear) < 1e-10; kills shear strain of strongly relaxed Maxwell layers",
             "C15: ::ensures:traction[3|4]@path0 (first run: np.real unsupported + single-path contract; contract made multi-path, bound-aware exact sampler)"),
  "C15a_3": ("calculate_volumetric_heating: in-place arithmetic on np.imag(stress), a view of the caller's array", "C15: calculate_volumetric_heating::frame#* (engine: ndarray object semantics - views, in-place updates, frame obligation on argument arrays - added after this change was first undecided)"),
+
+ "C05a_1": ("sensitivity_to_shear: numerators of the three-point gradient weights swapped; only on non-uniform grids", "C05: ::stencil_exact_on_linear / quadratics, energy_identity (first run)"),
+ "C05a_2": ("sensitivity_to_shear: |mu|^2 written as Re(mu^2); visible for strongly dissipative layers", "C05: ::sum_of_squares, energy_identity (first run)"),
+ "C05a_3": ("calc_radial_tidal_heating: heating zeroed where |mu| < 1e-3 max|mu| (soft solid layers)", "C05: calc_radial_tidal_heating::ensures:shell_integrand (first run undecided: np.abs / np.max unmodelled; now abs with its defining fact, max as an upper bound)"),
+ "C07a_1": ("legacy andrade(): zeta factored out with the wrong exponent sign; invisible at zeta = 1", "C07: compliance_models.py::andrade / sundberg ::equals_published_compliance (first run)"),
+ "C07a_2": ("legacy burgers(): Voigt offsets dropped (defaults used)", "C07: compliance_models.py::burgers::equals_published_compliance (first run)"),
+ "C07a_3": ("legacy maxwell(): zero-frequency guard widened to sqrt(eps) ~ 1.5e-8 rad/s", "C07: ::equals_published_compliance@path0 of the Maxwell family (first run undecided: np.sqrt unmodelled)"),
+ "C18a_1": ("restart scan: a case directory containing error.log is sent back to 'rerun' even when it later succeeded", "C18: #restart_scan::skip_iff_marker (added after this change was first missed)"),
+ "C18a_2": ("reload loop: grid index by divmod of the stale requested point count", "C18: #reload_indices::own_index_on_reload (bounded; added after this change was first missed)"),
+ "C18a_3": ("journal line formats the bounds with :g", "C18: #journal::roundtrip[...] (bounded; non-round bounds added after this change was first missed)"),
 }
 for k, (needs, det) in NOTES.items():
     p = f"/verif/seeded/{k}/meta.json"
